@@ -348,13 +348,16 @@ func runFault(t fataler, test string, f faultSpec) (verdict string, nontrivial b
 		outs[id] = r.Out
 	}
 	// ---- S3: whatever was returned is consistent and valid
+	aggregatorRejected := false
 	if len(outs) > 0 {
-		if err := sc.check(outs); err != nil {
+		if err := sc.check(outs); err == errAggregatorRejected {
+			aggregatorRejected = true
+		} else if err != nil {
 			t.Fatalf("%s: %v", what, err)
 		}
 	}
 	// ---- D: a bound alteration is rejected before a result is accepted
-	detected := honestErr > 0
+	detected := honestErr > 0 || aggregatorRejected
 	verdict = "detected"
 	if whole == opDrop {
 		verdict = "dropped"
@@ -365,6 +368,8 @@ func runFault(t fataler, test string, f faultSpec) (verdict string, nontrivial b
 			verdict = "inconclusive"
 		case r.Err != nil:
 			verdict = "detected-by-recipient"
+		case aggregatorRejected:
+			verdict = "detected-by-aggregator"
 		case detected:
 			verdict = "detected-by-other"
 		default:
@@ -380,7 +385,7 @@ func runFault(t fataler, test string, f faultSpec) (verdict string, nontrivial b
 		}
 	}
 	cls := f.class()
-	if verdict == "undetected" || verdict == "detected-by-other" {
+	if verdict == "undetected" || verdict == "detected-by-other" || verdict == "detected-by-aggregator" {
 		free, _ := isFree(sc, sl, cls, opName)
 		if free {
 			verdict = "free"
@@ -390,7 +395,7 @@ func runFault(t fataler, test string, f faultSpec) (verdict string, nontrivial b
 		} else if verdict == "undetected" {
 			t.Fatalf("%s: the alteration of a bound part of the message was accepted: every honest party completed without error (class %s)", what, cls)
 		} else {
-			t.Fatalf("%s: the message was addressed to party %d only, which accepted it; the alteration was rejected only by another party (class %s)", what, sl.to, cls)
+			t.Fatalf("%s: the message was addressed to party %d only, which accepted it; the alteration was rejected only by %s (class %s)", what, sl.to, strings.TrimPrefix(verdict, "detected-by-"), cls)
 		}
 	}
 	vlib.Sample("fault:"+sc.name, map[string]any{"scenario": sc.name, "slot": sl.String(), "fault": desc, "verdict": verdict})
